@@ -115,6 +115,43 @@ func genNamePool(t *rapid.T, n int) []string {
 	return out
 }
 
+// withOtherRunners renames some tests of the pool to benchmarks / fuzz targets: a *testing.B and the *testing.T of a fuzz
+// target are testingT values too (names Benchmark… / Fuzz…/seed#0), and custom runners use names of their own. Only for
+// properties about the Match* calls: Clean's notion of an entry header is `[Test… - n]`.
+func withOtherRunners(t *rapid.T, names []string) []string {
+	if rapid.IntRange(0, 3).Draw(t, "otherrunners") != 0 {
+		return names
+	}
+	out := append([]string{}, names...)
+	seen := map[string]bool{}
+	for _, n := range out {
+		seen[n] = true
+		seen["flat:"+strings.ReplaceAll(n, "/", "_")] = true
+	}
+	for i := range out {
+		if !rapid.Bool().Draw(t, "rename") {
+			continue
+		}
+		rest := strings.TrimPrefix(out[i], "Test")
+		var name string
+		switch rapid.IntRange(0, 3).Draw(t, "runner") {
+		case 0:
+			name = "Benchmark" + rest
+		case 1:
+			name = "Fuzz" + rest + "/seed#0"
+		case 2:
+			name = "Example" + rest
+		default:
+			name = "spec " + rest // a runner with names of its own
+		}
+		if flat := "flat:" + strings.ReplaceAll(name, "/", "_"); !seen[name] && !seen[flat] {
+			seen[name], seen[flat] = true, true
+			out[i] = name
+		}
+	}
+	return out
+}
+
 // ---------------------------------------------------------------------------------------------
 // lines and texts
 
